@@ -221,3 +221,47 @@ package treemap
 //@   ensures [C11 C12] loaded-all: jobj_kind(bytes, argof(m.tree.Comparator, 0), m.tree.Root.Value) == 3 ==> (forall k like argof(m.tree.Comparator, 0) :: jobj_has(bytes, k, m.tree.Root.Value) ==> Has(m, k))
 //@   ensures [C11 C12] loaded-only: jobj_kind(bytes, argof(m.tree.Comparator, 0), m.tree.Root.Value) == 3 ==> (forall i :: 0 <= i && i < N(m) ==> jobj_has(bytes, KeyAt(m, i), m.tree.Root.Value) && ValAt(m, i) == jobj_val(bytes, KeyAt(m, i), m.tree.Root.Value))
 //@   ensures [C12] null: jobj_kind(bytes, argof(m.tree.Comparator, 0), m.tree.Root.Value) == 2 ==> N(m) == 0
+
+// ---- enumerable (C14): agree with iteration, receiver unchanged ----
+
+//@ -- Each: f is applied exactly to the iterator's pairs at positions 0..n-1, in that order, once each (ghost call log)
+//@ func Map.Each
+//@   requires Inv(m) && f != nil
+//@   modifies nothing
+//@   ensures [C14 C17 C18] loglen == old(loglen) + N(m)
+//@   ensures [C14] calls: forall j :: 0 <= j && j < N(m) ==> logfun(old(loglen) + j) == f && logarg(old(loglen) + j, 0, argof(m.tree.Comparator, 0)) == KeyAt(m, j) && logarg(old(loglen) + j, 1, m.tree.Root.Value) == ValAt(m, j)
+//@   loop 1:
+//@     invariant ItInv(iterator) && iterator.iterator.tree == m.tree && fresh(iterator) && fresh(iterator.iterator) && loglen == old(loglen) + min(Cur(iterator) + 1, N(m))
+//@     invariant forall j :: 0 <= j && j <= Cur(iterator) && j < N(m) ==> logfun(old(loglen) + j) == f && logarg(old(loglen) + j, 0, argof(m.tree.Comparator, 0)) == KeyAt(m, j) && logarg(old(loglen) + j, 1, m.tree.Root.Value) == ValAt(m, j)
+//@     decreases N(m) - Cur(iterator)
+
+//@ func Map.Any
+//@   requires Inv(m) && f != nil
+//@   modifies nothing
+//@   ensures [C14 C17 C18] result == (exists j :: 0 <= j && j < N(m) && f(KeyAt(m, j), ValAt(m, j)))
+//@   loop 1:
+//@     invariant ItInv(iterator) && iterator.iterator.tree == m.tree && fresh(iterator) && fresh(iterator.iterator)
+//@     invariant forall j :: 0 <= j && j <= Cur(iterator) && j < N(m) ==> !f(KeyAt(m, j), ValAt(m, j))
+//@     decreases N(m) - Cur(iterator)
+
+//@ func Map.All
+//@   requires Inv(m) && f != nil
+//@   modifies nothing
+//@   ensures [C14 C17 C18] result == (forall j :: 0 <= j && j < N(m) ==> f(KeyAt(m, j), ValAt(m, j)))
+//@   loop 1:
+//@     invariant ItInv(iterator) && iterator.iterator.tree == m.tree && fresh(iterator) && fresh(iterator.iterator)
+//@     invariant forall j :: 0 <= j && j <= Cur(iterator) && j < N(m) ==> f(KeyAt(m, j), ValAt(m, j))
+//@     decreases N(m) - Cur(iterator)
+
+//@ func Map.Find
+//@   requires Inv(m) && f != nil
+//@   modifies nothing
+//@   ghostvar p := 0 - 1
+//@   at exit: p := ite(Cur(iterator) < N(m) && Cur(iterator) >= 0 && f(KeyAt(m, Cur(iterator)), ValAt(m, Cur(iterator))), Cur(iterator), 0 - 1)
+//@   ghostresult p int
+//@   ensures [C14 C17 C18] found: p >= 0 ==> p < N(m) && result0 == KeyAt(m, p) && result1 == ValAt(m, p) && f(KeyAt(m, p), ValAt(m, p)) && (forall j :: 0 <= j && j < p ==> !f(KeyAt(m, j), ValAt(m, j)))
+//@   ensures [C14 C17 C18] notfound: p < 0 ==> result0 == zero(result0) && result1 == zero(result1) && (forall j :: 0 <= j && j < N(m) ==> !f(KeyAt(m, j), ValAt(m, j)))
+//@   loop 1:
+//@     invariant ItInv(iterator) && iterator.iterator.tree == m.tree && fresh(iterator) && fresh(iterator.iterator)
+//@     invariant forall j :: 0 <= j && j <= Cur(iterator) && j < N(m) ==> !f(KeyAt(m, j), ValAt(m, j))
+//@     decreases N(m) - Cur(iterator)
